@@ -1626,6 +1626,13 @@ package flags
 //@   at call Command.eachCommand #1: recv() == c.commands[idx_1] && arg(0) == f && arg(1) && tick(rec)
 //@   at call Command.eachCommand.f #2: arg(0) == c.commands[idx_1] && tick(sub)
 //@   ensures ticks(own) == 1 && ticks(rec) + ticks(sub) == len(c.commands)
+//@ assumed func Command.eachOption.f(c *Command, g *Group, o *Option)
+//@ func (c *Command) eachOption(f func(*Command, *Group, *Option))
+//@   props C05 C16 C19 C04
+//@   requires c != nil && !isnil(f)
+//@   let root := c
+//@   at call Command.eachCommand #1: arg(1)
+//@   at call Command.eachOption.f #1: arg(0) == iterelem(Command.eachCommand, root, idx_1, 0) && arg(1) == iterelem(Group.eachGroup, arg(0).Group, idx_2, 0) && arg(2) == arg(1).options[idx_3]
 //@ axiom manual eg_nonempty: forall g *Group :: g != nil ==> iterlen(Group.eachGroup, g) >= 1
 //@ assumed func eagIndex(root *Command, k int, j int) (r int)
 //@   pure
